@@ -29,10 +29,11 @@ RULE = (
     "templates per cell; characters are sampled from the codec's own repertoire. distinct = (cell, template "
     "text); non-trivial = the template holds at least one non-ASCII character."
 )
-RULE += ' added since: stateful output codecs, corrupted declarations, module-head options (future_imports / imports) around the coding line, get_def(..).render identity of encoded output. the output identities also on templates built by a TemplateLookup that carries output_encoding / encoding_errors.'
+RULE += ' added since: stateful output codecs, corrupted declarations, module-head options (future_imports / imports) around the coding line, get_def(..).render identity of encoded output. the output identities also on templates built by a TemplateLookup that carries output_encoding / encoding_errors. lone surrogates under nine error handlers and ten output codecs through Template, TemplateLookup and get_def.'
 ASSUMPTIONS = ["CPython codecs are the reference; only ASCII-compatible encodings are in scope"]
 MIN_NONTRIVIAL = 200
 REQUIRED_COUNTERS = ["renders_compared", "expected_compile_errors_seen", "module_reloads", "fresh_process_reloads", "output_encodings_compared", "strict_encode_errors_matched"]
+REQUIRED_COUNTERS += ["unencodable_everywhere_compared"]
 
 CODECS = ["ascii", "utf-8", "latin-1", "cp1251", "cp1252", "koi8-r", "shift_jis", "euc-jp", "gb2312", "iso-8859-15", "utf-8-bom"]
 DECLS = ["comment", "input_encoding", "both", "conflict", "none", "bom_conflict", "ascii_lie", "corrupt", "corrupt_comment"]
@@ -354,7 +355,51 @@ def check_output_side(t, T, data, kw, uni, res, what, rc, real):
                 res.violate("def-encoded-output-differs", "%s: output_encoding=%s/%s get_def(%r).render() = %r, render_unicode().encode() = %r" % (what, enc, errors, dn, dgot, dexp), replay_case=rc)
 
 
+def run_unencodable_everywhere(res):
+    """render() == render_unicode().encode(output_encoding, encoding_errors) also for text that NO codec encodes
+    strictly - lone surrogates (os.fsdecode of an undecodable file name) - under every error handler, the UTF codecs
+    included; UnicodeEncodeError where encode() raises it"""
+    T = _st["Template"]
+    L = _st["TemplateLookup"]
+    src = "<%def name=\"f1()\">[${v}${'\\udce9'}]</%def>x${v}y${'\\udce9'}|${f1()}"
+    for enc in ("utf-8", "UTF-8", "utf8", "utf_8", "utf-16", "utf-32", "utf-16-le", "ascii", "latin-1", "cp1251"):
+        for errors in ("strict", "replace", "ignore", "backslashreplace", "xmlcharrefreplace", "surrogatepass", "surrogateescape", "htmlentityreplace", "namereplace"):
+            for v in ("\ud800", "caf\udce9.txt", "plain", "\u20ac"):
+                for route in ("Template", "TemplateLookup", "get_def"):
+                    try:
+                        if route == "TemplateLookup":
+                            lk = L(output_encoding=enc, encoding_errors=errors)
+                            lk.put_string("s.html", src)
+                            t = lk.get_template("s.html")
+                        else:
+                            t = T(src, output_encoding=enc, encoding_errors=errors)
+                        if route == "get_def":
+                            t = t.get_def("f1")
+                        uni = t.render_unicode(v=v)
+                    except Exception as e:
+                        res.violate("render-raises", "surrogate template, output_encoding=%s/%s via %s: %s: %s" % (enc, errors, route, type(e).__name__, e))
+                        continue
+                    try:
+                        exp = ("ok", uni.encode(enc, errors))
+                    except UnicodeEncodeError:
+                        exp = ("UnicodeEncodeError",)
+                    except Exception as e:
+                        exp = ("exc", type(e).__name__)
+                    try:
+                        got = ("ok", t.render(v=v))
+                    except UnicodeEncodeError:
+                        got = ("UnicodeEncodeError",)
+                    except Exception as e:
+                        got = ("exc", type(e).__name__)
+                    res.evaluations += 1
+                    res.count("unencodable_everywhere_compared")
+                    if got != exp:
+                        res.violate("encoded-output-differs", "template %r with v=%r, output_encoding=%s/%s via %s: render() = %r, render_unicode().encode() = %r" % (src, v, enc, errors, route, got, exp))
+    res.nontrivial("surrogates")
+
+
 def gen_cases(tier, seed):
+    yield {"kind": "unencodable"}
     n = 30 if tier == "quick" else 200
     for codec in CODECS:
         for decl in DECLS:
@@ -367,6 +412,8 @@ def run_case(case):
     res = common.CaseResult()
     if case["kind"] == "cell":
         run_cell(case, res)
+    elif case["kind"] == "unencodable":
+        run_unencodable_everywhere(res)
     elif case["kind"] == "one":
         T = _st["Template"]
         data = bytes.fromhex(case["data"])
